@@ -23,13 +23,17 @@
   Not covered (PLANNED): fuse in `mode="concat"`, einsum, solve (known finding for an odd
   matrix), svd_truncated (`applyCounts`), reshape, align_axes.
 
-  Two statements are deliberately NOT of the naive form, each with a machine-checked
-  counterexample below:
+  One statement is deliberately NOT of the naive form, with a machine-checked counterexample
+  below:
     * `expandDims_some_valid` needs `a.fermi = false ∨ parity c = false`
-      (`expandDims_odd_charge_invalid`: known finding "expand-dims-odd-charge");
-    * `squeeze_valid` needs the keys of the pending-sign table to have their charges in the
-      index tables (`squeeze_needs_phase_keys_in_tables`): `validB` alone allows a stale key
-      whose removed charge is non-zero.
+      (`expandDims_odd_charge_invalid`: known finding "expand-dims-odd-charge").
+  `squeeze` used to be the second one (former known finding "stale-phase-key-squeeze": `validB`
+  allows a sign-table key whose block was dropped and whose removed charge is non-zero; the old
+  `_map_blocks` re-keyed it into a key that does not conserve the charge).  Since the repair of
+  `FermionicArray._map_blocks` (only the sign entries of stored blocks are re-keyed)
+  `squeeze_valid_any_phases` holds with no hypothesis on the sign table;
+  `squeeze_drops_stale_phase_keys` is the regression theorem on the old witness and
+  `squeeze_phase_keys_stored` the general statement.
 -/
 import SymmModel.Proofs.ValidProg
 
@@ -188,14 +192,31 @@ theorem expandDims_odd_charge_invalid :
     ∧ (exF.expandDims 1 (some (1, 0)) none).invalidReason = "oddpos-parity" := by
   decide
 
+/-- **`squeeze` preserves validity**, whatever the pending-sign table holds (entries whose block
+    was dropped earlier — by `multiply_diagonal`, `align_axes`, `drop_missing_blocks` — are
+    discarded by `_map_blocks`) -/
+theorem squeeze_valid_any_phases (a : Arr R) (axis : Option (List Nat)) (r : Arr R)
+    (hv : a.validB = true) (h : a.squeeze axis = .ok r) : r.validB = true :=
+  (validB_iff _).mpr (ValidP.squeeze_valid_any_phases a axis r ((validB_iff a).mp hv) h)
+
+/-- the former statement, with the hypothesis the unrepaired `_map_blocks` needed (kept for the
+    callers that have it; it is implied by `squeeze_valid_any_phases`) -/
 theorem squeeze_valid (a : Arr R) (axis : Option (List Nat)) (r : Arr R) (hv : a.validB = true)
-    (hph : phaseKeysInTablesB a = true) (h : a.squeeze axis = .ok r) : r.validB = true :=
-  (validB_iff _).mpr (ValidP.squeeze_valid a axis r ((validB_iff a).mp hv) hph h)
+    (_hph : phaseKeysInTablesB a = true) (h : a.squeeze axis = .ok r) : r.validB = true :=
+  squeeze_valid_any_phases a axis r hv h
 
 example : phaseKeysInTablesB exF = true ∧ phaseKeysInTablesB exA = true := by decide
 
-/-- a valid fermionic array with a stale sign-table key (charge `1` is not in the table of the
-    second index): squeezing that axis leaves a key that is not charge-conserving -/
+/-- after `squeeze` (of any array, valid or not) every key of the pending-sign table of a
+    fermionic result is a stored sector: nothing stale survives -/
+theorem squeeze_phase_keys_stored (a : Arr R) (axis : Option (List Nat)) (r : Arr R)
+    (hf : a.fermi = true) (h : a.squeeze axis = .ok r) :
+    ∀ k ∈ r.phases.map (·.1), k ∈ r.sectors :=
+  ValidP.squeeze_phase_keys_stored a axis r hf h
+
+/-- a valid fermionic array with a stale sign-table key (no block is stored for it and charge `1`
+    is not in the table of the second index): the witness of the former known finding
+    "stale-phase-key-squeeze" -/
 def exStale : Arr Int :=
   { sym := .U1, fermi := true,
     indices := [.mk [((0, 0), 1), ((1, 0), 1)] false none, .mk [((0, 0), 1)] true none],
@@ -204,12 +225,18 @@ def exStale : Arr Int :=
     phases := [([(1, 0), (1, 0)], -1)],
     oddpos := [] }
 
-theorem squeeze_needs_phase_keys_in_tables :
+/-- **regression** (replaces `squeeze_needs_phase_keys_in_tables`): on the old witness — valid,
+    with a sign-table key outside the index tables — `squeeze` now drops the stale entry and
+    returns a valid array holding the same number -/
+theorem squeeze_drops_stale_phase_keys :
     exStale.validB = true ∧ phaseKeysInTablesB exStale = false
     ∧ (match exStale.squeeze none with
-       | .ok r => !r.validB && r.invalidReason == "phase-table"
+       | .ok r => r.validB && r.phases == [] && r.elem [(0, 0)] [0] == 5
        | .error _ => false) = true := by
   decide
+
+example : ∀ r, exStale.squeeze none = .ok r → r.validB = true :=
+  fun r h => squeeze_valid_any_phases exStale none r (by decide) h
 
 /-! ## 5. contraction -/
 
